@@ -52,7 +52,8 @@ Proof.
   - inversion H; subst. apply andb_true_iff; split; [now apply He | now apply IH].
 Qed.
 
-(* ---- generic evaluation of a case list: (id, input, observed) ---- *)
+(* ---- generic evaluation of a case list: (id, input, observed); ids are binary N
+   (a unary nat id above ~30000 overflows coqc's stack when printed) ---- *)
 Section Run.
   Context {I O : Type}.
   Variable model : I -> O.
@@ -60,12 +61,12 @@ Section Run.
   Variable oeqb  : O -> O -> bool.
   Variable path  : I -> O -> nat.   (* decision-path class of the model run; 0 = trivial *)
 
-  Definition run_mismatches (cs : list (nat * I * O)) : list nat :=
+  Definition run_mismatches (cs : list (N * I * O)) : list N :=
     map (fun c => fst (fst c))
         (filter (fun c => negb (oeqb (model (snd (fst c))) (snd c))) cs).
-  Definition run_violations (cs : list (nat * I * O)) : list nat :=
+  Definition run_violations (cs : list (N * I * O)) : list N :=
     map (fun c => fst (fst c))
         (filter (fun c => negb (spec (snd (fst c)) (snd c))) cs).
-  Definition run_paths (cs : list (nat * I * O)) : list nat :=
+  Definition run_paths (cs : list (N * I * O)) : list nat :=
     map (fun c => path (snd (fst c)) (model (snd (fst c)))) cs.
 End Run.
